@@ -127,6 +127,8 @@ def genrunAns (c hw s ns n ev st : String) : String :=
   mcql <kind> <content>                → ok <16 bytes> | err               (gocql.Marshal of a uuid column value)
   ucqln <col> <kind> <prev|nilptr> <data|null|-> → ok|err nilptr|<content of the NEW pointee>  (gocql.Unmarshal into a **T)
   ucqlnt <col> <prev|nilptr> <data|null> → ok|err nilptr|<sec.nsec>          (gocql.Unmarshal into a **time.Time)
+  casscmp <hex16> <hex16>              → le|gt ge|lt: Spec.cassLe both ways, against a transliteration of Cassandra's TimeUUIDType.compareCustom
+                                         (long arithmetic: reorderTimestampBytes, signedBytesToNativeLong) in the harness — validates the SPEC, no gocql code
   genord <sa> <na> <sb> <nb>           → lt|gt|same-tick bounds=ok: UUIDFromTime(a) vs UUIDFromTime(b) under Cassandra's order (random counter and
                                          nodes, chosen by the harness), and each within Min/MaxTimeUUID of its instant (C19_generated_cass_order)
   randn <hex, any length>              → ok <uuid> v=4 var=2 must=ok | err <16 bytes, partly filled> must=panic   (RandomUUID / MustRandomUUID
@@ -208,6 +210,9 @@ def step (_ : Unit) (ws : List String) : Unit × String :=
         let io := fun (b : Bool) => if b then "in" else "out"
         s!"incl={io (decide (ta ≤ ts) && decide (ts ≤ tb))} excl={io (decide (ta < ts) && decide (ts < tb))}"
       | _, _, _, _, _ => "bad-op"
+  | ["casscmp", a, b] => match parseHex a, parseHex b with   -- Spec.cassLe against the harness's transliteration of compareCustom
+      | some u, some v => (if Uuid.Spec.cassLe u v then "le" else "gt") ++ (if Uuid.Spec.cassLe v u then " ge" else " lt")
+      | _, _ => "bad-op"
   | ["genord", sa, na, sb, nb] => match intArg sa, natArg na, intArg sb, natArg nb with   -- C19_generated_cass_order
       | some sa, some na, some sb, some nb =>
         let ta := Uuid.tick (sa, na)
